@@ -1288,7 +1288,10 @@ class Expression(Expr):
             else:
                 parent.set(key, expression, self.index)
 
-        if expression is not self:
+        # A node that is part of its own replacement, e.g. node.replace([node, other]), stays linked
+        if expression is not self and not (
+            type(expression) is list and any(e is self for e in expression)
+        ):
             self.parent = None
             self.arg_key = None
             self.index = None
